@@ -163,6 +163,7 @@ pub fn main(tier: Tier, seed: u64) -> i32 {
         let walk = Walk { injections: vec![(*at, Ev::Stray { pol: 0, party: *party as u8, cmd: cmd.clone() })], prefer: base.clone(), max_steps: 10_000, ..Default::default() };
         run_walk(*n, 1, pols.clone(), walk, MsgPolicy::Explicit, crate::exec::mix(seed, 1400 + *ci as u64))
     });
+    let mut breakdown: std::collections::BTreeMap<String, u64> = Default::default();
     let mut rejected = 0u64;
     let mut accepted = 0u64;
     let mut unanswered = 0u64;
@@ -194,6 +195,19 @@ pub fn main(tier: Tier, seed: u64) -> i32 {
             continue;
         }
         let call = snap.calls.iter().find(|c| c.what.starts_with("stray:") && c.party as usize == *party);
+        {
+            let k = match cmd {
+                Stray::Consts { from, .. } => format!("consts from {}", if (*from as usize) < *n { "in range" } else { "out of range" }),
+                Stray::Msg { from, .. } => format!("msg from {}", if (*from as usize) < *n { "in range" } else { "out of range" }),
+                other => format!("{other:?}").split([' ', '(', '{']).next().unwrap_or("").to_string(),
+            };
+            let a = match call.map(|c| &c.result) {
+                Some(Ok(())) => "accepted",
+                Some(Err(_)) => "rejected",
+                None => "unanswered",
+            };
+            *breakdown.entry(format!("{k}: {a}")).or_insert(0u64) += 1;
+        }
         match call.map(|c| &c.result) {
             Some(Err(e)) if e == "NotFound" && matches!(cmd, Stray::ValidateDup { .. }) => {}
             Some(Err(_)) => {
@@ -206,6 +220,17 @@ pub fn main(tier: Tier, seed: u64) -> i32 {
             }
             Some(Ok(())) => {
                 accepted += 1;
+                // a command that carries an out-of-range party index can never be legitimate
+                if let Stray::Consts { from, .. } = cmd
+                    && *from as usize >= *n
+                {
+                    let changed = oracle(snap, *n, outs, expected, 1).err();
+                    rep.violation(
+                        if changed.is_some() { "out_of_range_consts_accepted:outcome_changed" } else { "out_of_range_consts_accepted" },
+                        format!("{desc}: answered Ok{}", changed.map(|(c, d)| format!("; afterwards {c}: {d}")).unwrap_or_default()),
+                        replay.clone(),
+                    );
+                }
                 let stray_pos = r.history.iter().position(|e| matches!(e, Ev::Stray { .. })).unwrap_or(0);
                 if matches!(cmd, Stray::Run) && run_is_invalid(&r.history[..stray_pos], *party, *leader) {
                     rep.violation("run_accepted_in_invalid_state", format!("{desc}: answered Ok although the party is not waiting for its run (not yet validated, or its run has already been delivered)"), replay.clone());
@@ -235,6 +260,7 @@ pub fn main(tier: Tier, seed: u64) -> i32 {
     rep.exhaustive = Some(!coord_capped);
     rep.set("coordination_states_with_stray_commands", json!(coord_states));
     rep.set("coordination_exploration_capped", json!(coord_capped));
+    rep.set("answers_by_command", json!(breakdown));
     rep.set("stray_rejected", json!(rejected));
     rep.set("stray_accepted_as_valid_for_state", json!(accepted));
     rep.set("stray_never_answered", json!(unanswered));
